@@ -3,10 +3,15 @@
 package beacon
 
 import (
+	"bytes"
+	"errors"
 	"math/bits"
 
+	blsu "github.com/protolambda/bls12-381-util"
 	"github.com/protolambda/zrnt/eth2/beacon/altair"
+	"github.com/protolambda/zrnt/eth2/beacon/capella"
 	"github.com/protolambda/zrnt/eth2/beacon/common"
+	"github.com/protolambda/zrnt/eth2/beacon/deneb"
 	"github.com/protolambda/zrnt/eth2/beacon/electra"
 	"github.com/protolambda/ztyp/tree"
 	"github.com/protolambda/ztyp/view"
@@ -17,6 +22,10 @@ func init() {
 	vsRegister("C12.apply", vhC12Apply)
 	vsRegister("C12.lemma_getbits", vhC12LemmaGetBits)
 	vsRegister("C12.branch_constants", vhC12BranchConstants)
+	vsRegister("C12.bootstrap", vhC12Bootstrap)
+	vsRegister("C12.typed_entry_points", vhC12TypedEntryPoints)
+	vsRegister("C12.signature_domain", vhC12SignatureDomain)
+	vsRegister("C12.lemma_participating_keys", vhC12LemmaParticipatingKeys)
 }
 
 // ---- idealised cryptography: every primitive is an observable model ----------------------------
@@ -256,5 +265,321 @@ func vhC12BranchConstants() {
 	vsAssert(1<<vhBranchArgs[0][0]+vhBranchArgs[0][1] == 105, "finalized-root-gindex-105")
 	vsAssert(1<<vhBranchArgs[1][0]+vhBranchArgs[1][1] == 55, "next-sync-committee-gindex-55")
 	vsAssert(1<<vhBranchArgs[2][0]+vhBranchArgs[2][1] == 54, "current-sync-committee-gindex-54")
+	vsCover("done")
+}
+
+// ---- bootstrap, constructors, signature domain --------------------------------------------------
+
+type vmBootAPI struct {
+	asked []common.Root
+	boot  common.SpecObj
+	fails bool
+}
+
+func (a *vmBootAPI) GetBootstrap(root common.Root) (common.SpecObj, error) {
+	a.asked = append(a.asked, root)
+	if a.fails {
+		return nil, vhErrIO12
+	}
+	return a.boot, nil
+}
+func (a *vmBootAPI) GetUpdates(firstPeriod, count uint64) ([]common.SpecObj, error) { return nil, vhErrIO12 }
+func (a *vmBootAPI) GetFinalityUpdate() (common.SpecObj, error)                     { return nil, vhErrIO12 }
+func (a *vmBootAPI) GetOptimisticUpdate() (common.SpecObj, error)                   { return nil, vhErrIO12 }
+func (a *vmBootAPI) ChainID() uint64                                                { return 1 }
+func (a *vmBootAPI) Name() string                                                   { return "verif" }
+
+var vhErrIO12 = errors.New("verif: api error")
+
+var (
+	vhBootHeaderRoot  tree.Root
+	vhBootCommitteeOK bool
+	vhBootAgeOK       bool
+	vhBootProofCalls  int
+)
+
+func vmBootHeaderHTR(h *deneb.LightClientHeader, hFn tree.HashFn) tree.Root { return vhBootHeaderRoot }
+func vmBootCommitteeProof(c *ConsensusLightClient, att common.BeaconBlockHeader, cur common.SyncCommittee, br electra.CurrentSyncCommitteeBranch) bool {
+	vhBootProofCalls++
+	return vhBootCommitteeOK
+}
+func vmBootCheckpointAge(c *ConsensusLightClient, slot common.Slot) bool { return vhBootAgeOK }
+func vmRootString(r tree.Root) string                                    { return string(r[:]) }
+
+// bootstrap() binds the store to the trusted checkpoint: it succeeds only if the served bootstrap
+// header hashes to the configured checkpoint root, the current-committee branch holds, and (in
+// strict mode) the checkpoint is not too old; the store then holds exactly that header and
+// committee. The header hash, branch check and age check are observable models.
+//
+//verif:harness C12.bootstrap unwind=40
+//verif:model (*github.com/protolambda/zrnt/eth2/beacon/deneb.LightClientHeader).HashTreeRoot = vmBootHeaderHTR
+//verif:model (*github.com/zen-eth/shisui/beacon.ConsensusLightClient).isCurrentCommitteeProofValid = vmBootCommitteeProof
+//verif:model (*github.com/zen-eth/shisui/beacon.ConsensusLightClient).isValidCheckpoint = vmBootCheckpointAge
+//verif:model (github.com/protolambda/ztyp/tree.Root).String = vmRootString
+func vhC12Bootstrap() {
+	tree.GetHashFn = func() tree.HashFn { return nil }
+	boot := &electra.LightClientBootstrap{}
+	boot.Header.Beacon.Slot = common.Slot(vsU64("slot"))
+	boot.Header.Beacon.StateRoot = vsArr32("state-root")
+	boot.CurrentSyncCommittee.Pubkeys = make([]common.BLSPubkey, 1)
+	api := &vmBootAPI{boot: boot, fails: vsBool("api-fails")}
+	if vsBool("wrong-fork-type") {
+		api.boot = &altair.LightClientBootstrap{}
+	}
+	vhBootHeaderRoot = vsArr32("header-root")
+	vhBootCommitteeOK, vhBootAgeOK, vhBootProofCalls = vsBool("committee-branch-ok"), vsBool("checkpoint-age-ok"), 0
+	c := &ConsensusLightClient{API: api, InitialCheckpoint: vsArr32("checkpoint"), Config: &Config{Spec: vhSpec(512), StrictCheckpointAge: vsBool("strict")}}
+	err := c.bootstrap()
+	if err != nil {
+		vsAssert(c.Store.FinalizedHeader == nil && c.Store.CurrentSyncCommittee == nil, "failed-bootstrap-leaves-the-store-empty")
+		vsCover("rejected")
+		return
+	}
+	vsCover("accepted")
+	vsAssert(!api.fails && len(api.asked) == 1 && api.asked[0] == c.InitialCheckpoint, "bootstrap-requested-for-the-checkpoint")
+	vsAssert(api.boot == common.SpecObj(boot), "bootstrap-of-the-expected-fork")
+	vsAssert(vhBootHeaderRoot == c.InitialCheckpoint, "header-hashes-to-the-trusted-checkpoint")
+	vsAssert(vhBootProofCalls >= 1 && vhBootCommitteeOK, "current-committee-branch-holds")
+	vsAssert(vhBootAgeOK || !c.Config.StrictCheckpointAge, "strict-mode-rejects-old-checkpoints")
+	vsAssert(c.Store.FinalizedHeader == &boot.Header.Beacon && c.Store.OptimisticHeader == &boot.Header.Beacon, "store-holds-the-bootstrap-header")
+	vsAssert(c.Store.CurrentSyncCommittee == &boot.CurrentSyncCommittee && c.Store.NextSyncCommittee == nil, "store-holds-the-bootstrap-committee")
+}
+
+var vhGenericCalls []vhGenericCall
+
+type vhGenericCall struct {
+	store    *LightClientStore
+	u        *GenericUpdate
+	slot     uint64
+	genesis  common.Root
+	version  [4]byte
+	applied  bool
+}
+
+func vmVerifyGeneric(c *ConsensusLightClient, store *LightClientStore, u *GenericUpdate, expectedSlot uint64, genesisRoot common.Root, forkVersion [4]byte) error {
+	vhGenericCalls = append(vhGenericCalls, vhGenericCall{store: store, u: u, slot: expectedSlot, genesis: genesisRoot, version: forkVersion})
+	return nil
+}
+
+func vmApplyGeneric(c *ConsensusLightClient, u *GenericUpdate) {
+	vhGenericCalls = append(vhGenericCalls, vhGenericCall{u: u, applied: true})
+}
+
+var vhForkVersionSlot common.Slot
+
+func vmForkVersion(spec *common.Spec, slot common.Slot) common.Version {
+	vhForkVersionSlot = slot
+	return common.Version{9, 9, 9, 9}
+}
+
+// The typed entry points (Verify/Apply x Update/FinalityUpdate/OptimisticUpdate, for the altair,
+// capella and deneb containers): the generic update they hand on refers to exactly the fields of
+// the typed one (attested beacon header, aggregate, signature slot, and - where the kind has them -
+// next committee + branch, finalized beacon header + branch; absent otherwise), verification runs
+// against the client's own store with the expected current slot, the configured genesis root and
+// the fork version of the signature slot; unknown container types are rejected.
+//
+//verif:harness C12.typed_entry_points unwind=40
+//verif:model (*github.com/zen-eth/shisui/beacon.ConsensusLightClient).VerifyGenericUpdate = vmVerifyGeneric
+//verif:model (*github.com/zen-eth/shisui/beacon.ConsensusLightClient).ApplyGenericUpdate = vmApplyGeneric
+//verif:model (*github.com/zen-eth/shisui/beacon.ConsensusLightClient).expectedCurrentSlot = vmExpectedCurrentSlot
+//verif:model (*github.com/protolambda/zrnt/eth2/beacon/common.Spec).ForkVersion = vmForkVersion
+func vhC12TypedEntryPoints() {
+	vmLC = &vmLCEnv{now: vsU64("now")}
+	c := &ConsensusLightClient{Config: &Config{Spec: vhSpec(512)}}
+	c.Config.Chain.GenesisRoot = vsArr32("genesis-root")
+	sigSlot := common.Slot(vsU64("signature-slot"))
+	var obj common.SpecObj
+	var att, fin *common.BeaconBlockHeader
+	var agg *altair.SyncAggregate
+	var next *common.SyncCommittee
+	var nextBr *altair.SyncCommitteeProofBranch
+	var finBr *altair.FinalizedRootProofBranch
+	kind := vsChoose("kind", 3) // 0 update, 1 finality update, 2 optimistic update
+	fork := vsChoose("fork", 4) // altair, capella, deneb, something else
+	switch kind*4 + fork {
+	case 0:
+		u := &altair.LightClientUpdate{SignatureSlot: sigSlot}
+		obj, att, agg, next, nextBr, fin, finBr = u, &u.AttestedHeader.Beacon, &u.SyncAggregate, &u.NextSyncCommittee, &u.NextSyncCommitteeBranch, &u.FinalizedHeader.Beacon, &u.FinalityBranch
+	case 1:
+		u := &capella.LightClientUpdate{SignatureSlot: sigSlot}
+		obj, att, agg, next, nextBr, fin, finBr = u, &u.AttestedHeader.Beacon, &u.SyncAggregate, &u.NextSyncCommittee, &u.NextSyncCommitteeBranch, &u.FinalizedHeader.Beacon, &u.FinalityBranch
+	case 2:
+		u := &deneb.LightClientUpdate{SignatureSlot: sigSlot}
+		obj, att, agg, next, nextBr, fin, finBr = u, &u.AttestedHeader.Beacon, &u.SyncAggregate, &u.NextSyncCommittee, &u.NextSyncCommitteeBranch, &u.FinalizedHeader.Beacon, &u.FinalityBranch
+	case 4:
+		u := &altair.LightClientFinalityUpdate{SignatureSlot: sigSlot}
+		obj, att, agg, fin, finBr = u, &u.AttestedHeader.Beacon, &u.SyncAggregate, &u.FinalizedHeader, &u.FinalityBranch
+	case 5:
+		u := &capella.LightClientFinalityUpdate{SignatureSlot: sigSlot}
+		obj, att, agg, fin, finBr = u, &u.AttestedHeader.Beacon, &u.SyncAggregate, &u.FinalizedHeader.Beacon, &u.FinalityBranch
+	case 6:
+		u := &deneb.LightClientFinalityUpdate{SignatureSlot: sigSlot}
+		obj, att, agg, fin, finBr = u, &u.AttestedHeader.Beacon, &u.SyncAggregate, &u.FinalizedHeader.Beacon, &u.FinalityBranch
+	case 8:
+		u := &altair.LightClientOptimisticUpdate{SignatureSlot: sigSlot}
+		obj, att, agg = u, &u.AttestedHeader.Beacon, &u.SyncAggregate
+	case 9:
+		u := &capella.LightClientOptimisticUpdate{SignatureSlot: sigSlot}
+		obj, att, agg = u, &u.AttestedHeader.Beacon, &u.SyncAggregate
+	case 10:
+		u := &deneb.LightClientOptimisticUpdate{SignatureSlot: sigSlot}
+		obj, att, agg = u, &u.AttestedHeader.Beacon, &u.SyncAggregate
+	default:
+		obj = &electra.LightClientBootstrap{} // not an update container
+	}
+	apply := vsBool("apply")
+	vhGenericCalls = nil
+	var err error
+	switch {
+	case kind == 0 && !apply:
+		err = c.VerifyUpdate(obj)
+	case kind == 0:
+		err = c.ApplyUpdate(obj)
+	case kind == 1 && !apply:
+		err = c.VerifyFinalityUpdate(obj)
+	case kind == 1:
+		err = c.ApplyFinalityUpdate(obj)
+	case !apply:
+		err = c.VerifyOptimisticUpdate(obj)
+	default:
+		err = c.ApplyOptimisticUpdate(obj)
+	}
+	if fork == 3 {
+		vsAssert(err != nil && len(vhGenericCalls) == 0, "unknown-container-rejected")
+		vsCover("unknown-container")
+		return
+	}
+	vsAssert(err == nil && len(vhGenericCalls) == 1, "handed-on-once")
+	g := vhGenericCalls[0]
+	vsAssert(g.applied == apply, "verify-verifies-apply-applies")
+	vsAssert(g.u.AttestedHeader == att && g.u.SyncAggregate == agg && g.u.SignatureSlot == sigSlot, "attested-header-aggregate-and-signature-slot-are-the-updates")
+	vsAssert(g.u.NextSyncCommittee == next && g.u.NextSyncCommitteeBranch == nextBr, "next-committee-and-branch-are-the-updates-or-absent")
+	vsAssert(g.u.FinalizedHeader == fin && g.u.FinalityBranch == finBr, "finalized-header-and-branch-are-the-updates-or-absent")
+	if !apply {
+		vsAssert(g.store == &c.Store, "verified-against-the-clients-store")
+		vsAssert(g.slot == vmLC.now, "verified-against-the-expected-current-slot")
+		vsAssert(g.genesis == c.Config.Chain.GenesisRoot, "signature-domain-uses-the-configured-genesis-root")
+		vsAssert(vhForkVersionSlot == sigSlot && g.version == [4]byte{9, 9, 9, 9}, "signature-domain-uses-the-fork-version-of-the-signature-slot")
+	}
+	vsCover("handed-on")
+}
+
+var vhSigArgs struct {
+	calls   int
+	keys    []*blsu.Pubkey
+	msg     []byte
+	sig     *blsu.Signature
+	domType common.BLSDomainType
+	domVer  common.Version
+	domGen  common.Root
+	srRoot  common.Root
+	srDom   common.BLSDomain
+}
+
+var vhPubkeyObjs = map[common.BLSPubkey]*blsu.Pubkey{}
+
+func vmPubkey(p *common.BLSPubkey) (*blsu.Pubkey, error) {
+	for k, v := range vhPubkeyObjs {
+		if k == *p {
+			return v, nil
+		}
+	}
+	o := new(blsu.Pubkey)
+	vhPubkeyObjs[*p] = o
+	return o, nil
+}
+
+var vhSigObj = new(blsu.Signature)
+
+func vmSignature(s *common.BLSSignature) (*blsu.Signature, error) { return vhSigObj, nil }
+
+func vmFastAggregateVerify(pubkeys []*blsu.Pubkey, message []byte, signature *blsu.Signature) bool {
+	vhSigArgs.calls++
+	vhSigArgs.keys, vhSigArgs.msg, vhSigArgs.sig = pubkeys, append([]byte(nil), message...), signature
+	vhSigVerdict = vsBool("bls-verdict")
+	return vhSigVerdict
+}
+
+var vhSigVerdict bool
+
+var vhDomainOut, vhSigningRootOut [32]byte
+
+func vmComputeDomain(t common.BLSDomainType, v common.Version, g common.Root) common.BLSDomain {
+	vhSigArgs.domType, vhSigArgs.domVer, vhSigArgs.domGen = t, v, g
+	return common.BLSDomain(vhDomainOut)
+}
+
+func vmComputeSigningRoot(root common.Root, domain common.BLSDomain) common.Root {
+	vhSigArgs.srRoot, vhSigArgs.srDom = root, domain
+	return common.Root(vhSigningRootOut)
+}
+
+var vhAttRoot [32]byte
+
+func vmHeaderHTR(h *common.BeaconBlockHeader, hFn tree.HashFn) tree.Root { return tree.Root(vhAttRoot) }
+
+// VerifySyncCommitteeSignature: the aggregate is checked for exactly the given keys, in order,
+// over the signing root of the attested header's root under the sync-committee domain (type
+// 0x07000000) of the given fork version and genesis root; the verdict is the BLS verdict.
+//
+//verif:harness C12.signature_domain unwind=40
+//verif:model (*github.com/protolambda/zrnt/eth2/beacon/common.BLSPubkey).Pubkey = vmPubkey
+//verif:model (*github.com/protolambda/zrnt/eth2/beacon/common.BLSSignature).Signature = vmSignature
+//verif:model github.com/protolambda/bls12-381-util.FastAggregateVerify = vmFastAggregateVerify
+//verif:model github.com/protolambda/zrnt/eth2/beacon/common.ComputeDomain = vmComputeDomain
+//verif:model github.com/zen-eth/shisui/beacon.ComputeSigningRoot = vmComputeSigningRoot
+//verif:model (*github.com/protolambda/zrnt/eth2/beacon/common.BeaconBlockHeader).HashTreeRoot = vmHeaderHTR
+//verif:exec github.com/ethereum/go-ethereum/common/hexutil encoding/hex
+func vhC12SignatureDomain() {
+	tree.GetHashFn = func() tree.HashFn { return nil }
+	k := vsChoose("keys", 4)
+	pks := make([]common.BLSPubkey, k)
+	for i := range pks {
+		pks[i][0], pks[i][1] = byte(i+1), vsU8("key-byte")
+	}
+	vhAttRoot, vhDomainOut, vhSigningRootOut = vsArr32("attested-root"), vsArr32("domain"), vsArr32("signing-root")
+	genesis := common.Root(vsArr32("genesis-root"))
+	var version [4]byte
+	copy(version[:], vsBytesN("fork-version", 4))
+	c := &ConsensusLightClient{Config: &Config{Spec: vhSpec(512)}}
+	vhSigArgs.calls = 0
+	ok, err := c.VerifySyncCommitteeSignature(pks, common.BeaconBlockHeader{}, common.BLSSignature{}, genesis, version)
+	vsAssert(err == nil && vhSigArgs.calls == 1, "aggregate-checked-once")
+	vsAssert(vhSigArgs.domType == common.BLSDomainType{7, 0, 0, 0}, "sync-committee-domain-type")
+	vsAssert(vhSigArgs.domVer == common.Version(version) && vhSigArgs.domGen == genesis, "domain-of-the-given-fork-version-and-genesis-root")
+	vsAssert(vhSigArgs.srRoot == common.Root(vhAttRoot) && vhSigArgs.srDom == common.BLSDomain(vhDomainOut), "signing-root-of-the-attested-header-under-that-domain")
+	vsAssert(bytes.Equal(vhSigArgs.msg, vhSigningRootOut[:]), "message-is-the-signing-root")
+	vsAssert(vhSigArgs.sig == vhSigObj, "the-updates-signature")
+	vsAssert(len(vhSigArgs.keys) == k, "exactly-the-given-keys")
+	for i := range pks {
+		want, _ := vmPubkey(&pks[i])
+		vsAssert(vhSigArgs.keys[i] == want, "keys-in-committee-order")
+	}
+	vsAssert(ok == vhSigVerdict, "verdict-is-the-bls-verdict")
+	vsCover("done")
+}
+
+// getParticipatingKeys returns exactly the committee keys whose participation bit is set, in
+// committee order (committee of 8, every bit pattern).
+//
+//verif:harness C12.lemma_participating_keys unwind=20
+//verif:exec github.com/protolambda/zrnt/eth2/beacon/altair github.com/protolambda/ztyp/bitfields
+func vhC12LemmaParticipatingKeys() {
+	c := &ConsensusLightClient{Config: &Config{Spec: vhSpec(8)}}
+	b := altair.SyncCommitteeBits(vsBytesN("bits", 1))
+	committee := common.SyncCommittee{Pubkeys: make([]common.BLSPubkey, 8)}
+	for i := range committee.Pubkeys {
+		committee.Pubkeys[i][0] = byte(i + 1)
+	}
+	keys := c.getParticipatingKeys(committee, b)
+	vsAssert(uint64(len(keys)) == vhPopcount(b), "one-key-per-set-bit")
+	j := 0
+	for i := 0; i < 8; i++ {
+		if b[0]>>uint(i)&1 == 1 {
+			vsAssert(keys[j][0] == byte(i+1), "keys-of-the-set-bits-in-order")
+			j++
+		}
+	}
 	vsCover("done")
 }
